@@ -1,0 +1,5 @@
+//go:build !verif
+
+package chain
+
+func verifForceFlush(*DBStore) bool { return false }
